@@ -1,4 +1,4 @@
-From Coq Require Import List ZArith QArith Bool Lia Arith.
+From Coq Require Import List ZArith QArith Bool Lia Arith Lqa Field.
 Import ListNotations.
 From Navis Require Import model.Forest model.Dist model.Segments model.Prune
   proofs.ForestWF proofs.RerootProofs proofs.SubsetCut proofs.OpsWF proofs.DistProofs.
@@ -188,4 +188,34 @@ Proof.
     destruct (first_in_kept_split kept (anc t n0)) as [l1 [l2 [E1 [H1 [[E2 E3]|[l2' [E2 E3]]]]]]].
     + lia.
     + exists l1, l2'. split; [rewrite E1 at 1; rewrite E2; reflexivity|]. auto.
+Qed.
+
+(* ---- exact mode: where the cable is cut ---- *)
+Theorem exact_plan_spec t w size i f : In (i, f) (exact_plan t w size) <->
+  exists r, In r t /\ rid r = i /\
+    let h := height (length t) t w i in let e := wget w i in
+    ((Qle_bool size h = true /\ f = 0%Q) \/
+     (Qle_bool size h = false /\ is_root r = true /\ f = 0%Q) \/
+     (Qle_bool size h = false /\ is_root r = false /\ Qle_bool (h + e) size = false /\ f = ((size - h) / e)%Q)).
+Proof.
+  unfold exact_plan. rewrite in_flat_map. split.
+  - intros [r [Hr H]]. exists r. split; [exact Hr|].
+    destruct (Qle_bool size (height (length t) t w (rid r))) eqn:E1.
+    + destruct H as [H|[]]. inversion H; subst. split; [reflexivity|]. left. split; [exact E1 | reflexivity].
+    + destruct (is_root r) eqn:E2.
+      * destruct H as [H|[]]. inversion H; subst. split; [reflexivity|]. right. left. rewrite E1. auto.
+      * destruct (Qle_bool (height (length t) t w (rid r) + wget w (rid r)) size) eqn:E3; [destruct H|].
+        destruct H as [H|[]]. inversion H; subst. split; [reflexivity|]. right. right. rewrite E1, E3. auto.
+  - intros [r [Hr [<- H]]]. exists r. split; [exact Hr|]. cbv zeta in H.
+    destruct H as [[E1 ->]|[[E1 [E2 ->]]|[E1 [E2 [E3 ->]]]]]; rewrite E1; try rewrite E2; try rewrite E3; left; reflexivity.
+Qed.
+
+(* a node that is moved ends up strictly inside the edge to its parent, at EXACTLY `size` of cable above the farthest tip below it *)
+Theorem exact_cut_point (h e size : Q) : (0 < e)%Q -> Qle_bool size h = false -> Qle_bool (h + e) size = false ->
+  let f := ((size - h) / e)%Q in (0 < f)%Q /\ (f < 1)%Q /\ (h + f * e == size)%Q.
+Proof.
+  intros He E1 E3. cbv zeta.
+  assert (H1 : (h < size)%Q). { apply Qnot_le_lt. intros Hle. apply Qle_bool_iff in Hle. congruence. }
+  assert (H3 : (size < h + e)%Q). { apply Qnot_le_lt. intros Hle. apply Qle_bool_iff in Hle. congruence. }
+  split; [apply Qlt_shift_div_l; [exact He | lra]|]. split; [apply Qlt_shift_div_r; [exact He | lra]|]. field. lra.
 Qed.
